@@ -251,6 +251,10 @@ class AnsiString:
         ''' Creates a new AnsiString which is a copy of the original '''
         return AnsiString(self)
 
+    def __copy__(self) -> 'AnsiString':
+        ''' copy.copy() gives an independent value too (the default shallow copy would share the formatting table) '''
+        return self.copy()
+
     def set_ansi_str(self, s:str) -> None:
         '''
         Parses an ANSI formatted escape code sequence graphic rendition string into this object.
